@@ -19,6 +19,48 @@ Theorem C18_live_kept : forall c ah i u ops s h,
 Proof. exact live_kept. Qed.
 Print Assumptions C18_live_kept.
 
+(* the same over histories in which the replica loses and regains its shard any number of times
+   (StopLeading / StartLeading), heartbeats arrive while it leads nothing, and clean-up passes run at
+   any point: the client cache records every heartbeat whether or not the replica leads, so an instance
+   whose heartbeat is at most 3 s old at every timeout pass keeps its cache entry and its persisted
+   condition — in particular through the unknown-condition pass right after a take-over *)
+Theorem C18_takeover_keeps_live : forall c ah i u ops x h,
+  Inv true (core x) -> alookup String.eqb i (hb (core x)) = Some h -> slive_along c ah i x ops -> Forall (sidle i) ops ->
+  str_mem u (lister (core x)) = true -> Forall (fun o => o <> Op (ClusterGone u)) ops ->
+  let x' := srun_state c true ah x ops in
+  (exists h', alookup String.eqb i (hb (core x')) = Some h') /\ cond_of u i (core x') = cond_of u i (core x).
+Proof. exact takeover_keeps_live. Qed.
+Print Assumptions C18_takeover_keeps_live.
+
+(* non-vacuity: g1 and g2 hold conditions; the replica loses the shard; g1 keeps heartbeating the
+   standby, g2 does not; the cache is aged, the shard is regained and the unknown-condition pass runs at
+   once: g1's persisted condition is kept, g2's is reclaimed *)
+Example C18_takeover_nonvacuous :
+  let ops1 := [Op (Heartbeat "g1"); Op (Heartbeat "g2"); Op (Report "a" "g1" 50); Op (Report "a" "g2" 47)]%string in
+  let x := srun_state cfg0 true true (sinit cfg0) ops1 in
+  let ops := [StopLeading; Op (Advance 2000); Op (Heartbeat "g1"); Op (Advance 2000); Op TickTimeout;
+              StartLeading; Op TickUnknown; Op TickTimeout]%string in
+  let x' := srun_state cfg0 true true x ops in
+  slive_along cfg0 true "g1" x ops /\ Forall (sidle "g1") ops
+  /\ lead x' = true
+  /\ cond_of "a" "g1" (core x') = Some (50, "g1"%string) /\ cond_of "a" "g2" (core x) = Some (47, "g2"%string)
+  /\ cond_of "a" "g2" (core x') = None.
+Proof.
+  intros ops1 x ops x'. split.
+  - vm_compute.
+    repeat match goal with
+           | |- _ /\ _ => split
+           | |- True => exact I
+           | |- Op _ = Op _ -> _ => let E := fresh in intros E; try discriminate E
+           | |- StopLeading = _ -> _ => let E := fresh in intros E; discriminate E
+           | |- StartLeading = _ -> _ => let E := fresh in intros E; discriminate E
+           | |- exists _, _ => eexists
+           | |- Some _ = Some _ => reflexivity
+           | |- _ = Gt -> False => let X := fresh in intros X; discriminate X
+           end.
+  - split; [repeat constructor|]. vm_compute. repeat split; reflexivity.
+Qed.
+
 (* an upstream that left the lister without its handler running is deleted as a whole by the
    unknown-condition pass (conditions, recorded sum, counted in-flight) as soon as it holds a condition
    — the upstream state condition included — of an instance that is not in the cache *)
